@@ -109,10 +109,15 @@ ReadFailed(e) ==
   \cup Chk("C06.readback", (cont /\ first /\ e.err # "nil" /\ b.std.verdict = "eof" /\ ~srcFailed) => (e.err = "eof" /\ g2 = b.std.len))
   \cup Chk("C06.bytes", cont => e.ok)
   \cup Chk("C08.concat", (b.kind = "gzip" /\ first /\ e.err # "nil" /\ b.std.verdict = "eof" /\ ~srcFailed) => (e.err = "eof" /\ g2 = b.ref.len /\ e.ok))
+  \* a stream written by an encoder (fastgo's or the standard library's) is read back as what was written
+  \cup Chk("C08.written_readable", (b.kind = "gzip" /\ b.wantLen >= 0 /\ first /\ e.err # "nil" /\ ~srcFailed) => (e.err = "eof" /\ g2 = b.wantLen))
+  \cup Chk("C06.written_readable", (cont /\ b.wantLen >= 0 /\ first /\ e.err # "nil" /\ ~srcFailed) => (e.err = "eof" /\ g2 = b.wantLen))
   \cup Chk("C15.reported", (first /\ e.err # "nil" /\ srcFailed) =>
              (e.err = "injected" \/ (e.err = "eof" /\ b.ref.verdict = "eof" /\ pulled >= b.ref.end)))
+  \cup Chk("C15.sticky", (~first /\ rerr = "injected") => (e.err = "injected" /\ e.n = 0))
   \cup Chk("C15.not_invented", (first /\ e.err = "injected") => srcFailed)
   \cup Chk("C11.data_before_error", (first /\ e.err = "injected" /\ b.decAt >= 0) => g2 >= b.decAt)
+  \cup Chk("C11.data_before_garbage", (first /\ e.err # "nil" /\ b.after = "garbage" /\ b.decAt >= 0) => g2 >= b.decAt)
   \cup Chk("C11.eof_without_more", (first /\ e.err = "eof" /\ b.decAt >= 0 /\ b.released = b.ref.end /\ b.kind # "gzip") => ~gated)
 
 -----------------------------------------------------------------------------
@@ -127,6 +132,8 @@ EndFailed(e) ==
   \cup Chk("C05.exact_end", (rerr = "eof" /\ b.exact /\ ~b.partial) => e.rest = b.sLen - b.ref.end)
   \cup Chk("C08.member_end", (rerr = "eof" /\ b.exact /\ b.member) => e.rest = b.sLen - b.ref.end)
   \cup Chk("C06.header", b.hdrCheck => e.hdrOK)
+  \cup Chk("C08.written_digest", (b.kind = "gzip" /\ b.wantLen >= 0 /\ rerr = "eof") => (given = b.wantLen /\ e.digest = b.wantDigest))
+  \cup Chk("C06.written_digest", (b.kind # "flate" /\ b.wantLen >= 0 /\ rerr = "eof") => (given = b.wantLen /\ e.digest = b.wantDigest))
   \* all members of a group end the same way (C04: schedules, C18: acceleration levels, C13: fresh vs Reset)
   \cup Chk(b.groupClause, (b.group # "" /\ gout # <<>>) => (gout = <<given, rerr, e.digest>>))
 =============================================================================
